@@ -98,6 +98,8 @@ pub struct Reach {
     pub states: BTreeSet<u32>,
     pub steps: u64,
     pub records: u64,
+    /// isolated runs: bit-exact rendering of what every live slot answers at the end of the run
+    pub final_obs: Vec<String>,
 }
 
 /// abstract state of a slot: count bucket x (any compensation non-zero) x right_acc x merged
@@ -173,6 +175,12 @@ pub fn exec_probe<M: Machine>(tr: &Trace, stats: &mut Stats, mut probe: Option<&
         }
         if let Some(v) = check_slot::<M>(&w, i, cfg, stats) {
             return (Some(v), reach);
+        }
+        if tr.isolated {
+            if let Some(s) = w.get(i) {
+                let o = M::observe(&s.st, ObsPlan { confs: &all_confs, unguarded: false });
+                reach.final_obs.push(format!("slot {i}: {} | {}", M::fingerprint(&s.st), o.iter().map(|(w, v)| format!("{:?}={}", w, v.render())).collect::<Vec<_>>().join(" ")));
+            }
         }
     }
     reach.shape = dg.0;
